@@ -35,12 +35,14 @@ func main() {
 		rep = suiteAsm(*tier, *seed, *model)
 	case "C15":
 		rep = suiteStruct(*tier, *seed, *model)
+		rep.Merge(suiteIfaceMembers(*tier, *seed))
 	case "C16":
 		rep = suiteRecompose(*tier, *seed, *model)
 	case "C18":
 		rep = suiteConvert(*tier, *seed, *model)
 	case "C19":
 		rep = suiteDiff(*tier, *seed, *model)
+		rep.Merge(suiteDiffStructs(*tier, *seed))
 	case "C14":
 		rep = suiteText(*tier, *seed, *model)
 	case "C13":
